@@ -79,8 +79,43 @@ def rule_default_wrap(ctx, px):
             optvar = c.args[1].id
     if optvar is None:
         raise AnalysisError("anchor missing: language options override in _create_language_context")
+    pm_f = pyfront.parent_map(f.node)
+
+    def expand_loop_constants(st):
+        """`for name in ("a", "b"): options[name] = X if getattr(self._args, name) else DefaultValue(..)` -> one statement per
+        constant with getattr(self._args, name) rewritten to self._args.<constant>"""
+        cur = pm_f.get(id(st))
+        while cur is not None and not isinstance(cur, ast.For):
+            cur = pm_f.get(id(cur))
+        if cur is None or not isinstance(cur.target, ast.Name) or not isinstance(cur.iter, (ast.Tuple, ast.List)) \
+                or not all(isinstance(e, ast.Constant) and isinstance(e.value, str) for e in cur.iter.elts):
+            return [st]
+        lv = cur.target.id
+        if lv not in {x.id for x in ast.walk(st) if isinstance(x, ast.Name)}:
+            return [st]
+        out = []
+        for e in cur.iter.elts:
+            class _R(ast.NodeTransformer):
+                def visit_Call(self, node):
+                    if isinstance(node.func, ast.Name) and node.func.id == "getattr" and len(node.args) >= 2 and ast.unparse(node.args[0]) == "self._args" \
+                            and isinstance(node.args[1], ast.Name) and node.args[1].id == lv:
+                        return ast.copy_location(ast.Attribute(value=node.args[0], attr=e.value, ctx=ast.Load()), node)
+                    self.generic_visit(node)
+                    return node
+
+                def visit_Name(self, node):
+                    return ast.copy_location(ast.Constant(value=e.value), node) if node.id == lv else node
+            import copy as _copy
+            out.append(ast.fix_missing_locations(_R().visit(_copy.deepcopy(st))))
+        return out
+
+    stmts = []
     for st, gd in pyfront.walk_guarded(f.node.body):
         if isinstance(st, ast.Assign) and isinstance(st.targets[0], ast.Subscript) and ast.unparse(st.targets[0].value) == optvar:
+            for st2 in expand_loop_constants(st):
+                stmts.append((st2, gd))
+    for st, gd in stmts:
+        if True:
             key = ast.unparse(st.targets[0].slice)
             xs = _args_attrs(st.value)
             for x in xs:
@@ -144,8 +179,23 @@ def rule_order(ctx, px):
     ok = len(loops) == 1 and ast.unparse(loops[0].iter) == acf.node.args.vararg.arg if acf.node.args.vararg else False
     ctx.ob(R, acf.module.rel, f"{acf.short} :: files merged in the order given", bool(ok),
            "" if ok else "iteration over the files is reordered/filtered", acf.node.lineno)
-    upd = [c for c in ast.walk(acf.node) if isinstance(c, ast.Call) and isinstance(c.func, ast.Attribute) and c.func.attr.startswith("update_from_yaml")]
+    upd = [c for c in pyfront.walk_with_helpers(px, acf) if isinstance(c, ast.Call) and isinstance(c.func, ast.Attribute) and c.func.attr.startswith("update_from_yaml")]
     ctx.ob(R, acf.module.rel, f"{acf.short} :: each file is merged into the builder's config", len(upd) == 1 and ast.unparse(upd[0].func.value) == "self.config", "", acf.node.lineno)
+    # ... every one of them, every time it is listed: nothing in the loop skips a file (a file given twice is merged twice - the
+    # later occurrence must win over what came in between)
+    if loops:
+        lp = loops[0]
+        helpers = {h.name for h in pyfront.private_helpers(px, acf)}
+        merges = []
+        for st, gd in pyfront.walk_guarded(lp.body, ()):
+            for c in pyfront.expr_calls(st):
+                if isinstance(c.func, ast.Attribute) and (c.func.attr.startswith("update_from_yaml") or c.func.attr in helpers):
+                    merges.append(pyfront.guard_terms(gd))
+        skips = [x for x in ast.walk(lp) if isinstance(x, (ast.Continue, ast.Break))]
+        ok = bool(merges) and all(not g for g in merges) and not skips
+        ctx.ob(R, acf.module.rel, f"{acf.short} :: no listed file is skipped", ok,
+               "" if ok else f"the merge is conditional ({merges}) or the loop skips entries: a file listed again later no longer overrides what was merged in between",
+               lp.lineno)
     # setters store only
     for name in ("set_target_language_configuration_override", "set_target_language_extension", "set_target_language"):
         s = b.methods[name]
@@ -194,7 +244,7 @@ def rule_order(ctx, px):
     for st, gd in pyfront.walk_guarded(du.node.body):
         terms = pyfront.guard_terms(gd)
         in_scalar_branch = any(f"isinstance({d_v}" in e and "Mapping" in e and not p for e, p in terms)
-        if in_scalar_branch:
+        if in_scalar_branch and not isinstance(st, (ast.Continue, ast.Pass)):
             scalar_stores.append(st)
     ok = len(scalar_stores) == 1 and f"DefaultValue.assign_to_if_not_default({d_t}, {d_k}, {d_v})" in ast.unparse(scalar_stores[0])
     ctx.ob(R, du.module.rel, f"{du.short} :: scalars are assigned only through DefaultValue.assign_to_if_not_default", ok,
@@ -289,7 +339,19 @@ def rule_ownership(ctx, px):
             vt = ast.unparse(v)
             if isinstance(v, ast.Call) and ast.unparse(v.func) == "deep_update":
                 a0 = ast.unparse(v.args[0]) if v.args else ""
-                ok = a0 in (f"{d_t}.get({d_k}, {{}})", f"{d_t}[{d_k}]", "{}", f"{d_t}.setdefault({d_k}, {{}})")
+                owned = (f"{d_t}.get({d_k}, {{}})", f"{d_t}[{d_k}]", "{}", "dict()", f"{d_t}.setdefault({d_k}, {{}})")
+
+                def target_owned(e, depth=0):
+                    """the recursion target is the target's own entry or a fresh map - also through a local and a conditional"""
+                    if ast.unparse(e) in owned:
+                        return True
+                    if isinstance(e, ast.IfExp):
+                        return target_owned(e.body, depth + 1) and target_owned(e.orelse, depth + 1)
+                    if isinstance(e, ast.Name) and depth < 3:
+                        vals = [n_.value for n_ in ast.walk(du.node) if isinstance(n_, ast.Assign) and any(isinstance(t_, ast.Name) and t_.id == e.id for t_ in n_.targets)]
+                        return bool(vals) and all(target_owned(x, depth + 1) for x in vals)
+                    return False
+                ok = bool(v.args) and target_owned(v.args[0])
                 ctx.ob(R, du.module.rel, f"{du.short} :: {tgt} = deep_update({a0}, ...)", ok,
                        "recursion into a fresh or target-owned mapping" if ok else "recursion target may be source-owned", st.lineno)
             elif isinstance(v, ast.Call) and ast.unparse(v.func) in ("copy.deepcopy", "deepcopy"):
@@ -304,6 +366,10 @@ def rule_ownership(ctx, px):
                 ok = (not src_derived) or scalar
                 ctx.ob(R, du.module.rel, f"{du.short} :: {tgt} = {vt}", ok,
                        "" if ok else "a source-side mapping is stored into the target by reference", st.lineno)
+    for r_ in ast.walk(du.node):
+        if isinstance(r_, ast.Return) and isinstance(r_.value, ast.Call) and ast.unparse(r_.value.func) in ("copy.deepcopy", "deepcopy"):
+            n += 1
+            ctx.ob(R, du.module.rel, f"{du.short} :: return {ast.unparse(r_.value)}", True, "deep copy", r_.lineno)
     ctx.floor(R, n, 2)
     # who writes _sections
     for m in px.modules.values():
